@@ -128,10 +128,14 @@ def run(tier, seed, replay):
         if k % 4 == 1:
             # cache pressure: more L2 slices in use than the cache holds and no flush in between, so loading a
             # slice evicts a dirty one (write-back inside the operation)
-            cbx = rng.choice([9, 10])
+            cbx = rng.choice([9, 10, 11])
             se = 512 // 8
             nsl = rng.choice([3, 4, 6])
             g = hist.Geom(cbx, rng.choice([2, 4, 6]), (nsl * se) << cbx, 9, (9, 2 << 9), (9, rng.choice([2, 8]) << 9), punch=1)
+            if cbx >= 10:
+                # L2 tables larger than a slice, on a host file whose free space holds stale bytes: a new table that is
+                # not zeroed (failed zeroing) shows up as garbage entries in the slices nobody wrote
+                g.tail = (rng.choice([16, 32]) << cbx, rng.choice([0x01, 0xEE]))
             ops = []
             tag = 1
             for _ in range(rng.randrange(4, 10)):
@@ -189,6 +193,14 @@ def run(tier, seed, replay):
         text, sweeps = build_variant(cid, g2, ops, [], rng, image)
         variants.append((cid, text))
         meta[cid] = (g2, ops, sweeps, 'hole punching unsupported', init)
+        if image is None and getattr(g, 'tail', None):
+            # the zeroing of a new (data or table) cluster fails in both forms, at its 1st .. nth occurrence
+            for kk in range(4 if tier == 'quick' else 10):
+                cid = 'c17_%d_zt%d' % (k, kk)
+                fl = ['fault ZW 0 %d %d' % (1 << 40, kk)]
+                text, sweeps = build_variant(cid, g, ops, fl, rng, image)
+                variants.append((cid, text))
+                meta[cid] = (g, ops, sweeps, 'faults: ' + '; '.join(fl), init)
         if image is not None:
             # zeroing of a new cluster fails twice (punch, then the zero-write fallback): stale host bytes must not show up
             for kk in range(3 if tier == 'quick' else 6):
